@@ -896,6 +896,14 @@ def _sc_candidates(sc):
         c = copy.deepcopy(sc)
         c['faults']['norelease'] = False
         yield c
+    if f.get('ontime_status'):
+        c = copy.deepcopy(sc)
+        c['faults']['ontime_status'] = False
+        yield c
+    if sc.get('cluster_header'):
+        c = copy.deepcopy(sc)
+        c['cluster_header'] = None
+        yield c
     if f.get('delay_model'):
         c = copy.deepcopy(sc)
         c['faults']['delay_model'] = None
